@@ -426,16 +426,25 @@ func rulePMALL(p *Program, r *Reporter) {
 		return
 	}
 	n := 0
-	for _, h := range fn.Blocks {
-		isHeader := false
-		for _, pr := range h.Preds {
-			if h.Dominates(pr) {
-				isHeader = true
+	// the loops may live in a closure handed to a locking helper, or in a private helper
+	type hdr struct {
+		fn *ssa.Function
+		h  *ssa.BasicBlock
+	}
+	var hdrs []hdr
+	for _, g := range sortedFuncs(p.PrivateRegion(fn)) {
+		for _, h := range g.Blocks {
+			for _, pr := range h.Preds {
+				if h.Dominates(pr) {
+					hdrs = append(hdrs, hdr{g, h})
+					break
+				}
 			}
 		}
-		if !isHeader {
-			continue
-		}
+	}
+	root := fn
+	for _, hd := range hdrs {
+		fn, h := hd.fn, hd.h
 		n++
 		exits := 0
 		var where token.Pos
@@ -462,6 +471,7 @@ func rulePMALL(p *Program, r *Reporter) {
 		r.Ob(id, funcName(fn), "loop without early exit", pos, exits == 0, true,
 			ifs(exits == 0, "the loop only ends when every connection / monitor was visited", "the notification loop can be left early (break/return inside the loop): monitors that Go's map iteration visits later miss the transaction"))
 	}
+	_ = root
 	if n < 2 {
 		r.Anchor(id, fmt.Sprintf("processMonitors has %d loops, expected 2", n))
 	}
@@ -1026,4 +1036,19 @@ func ruleTINITREFS(p *Program, r *Reporter) {
 	if n == 0 {
 		r.Anchor(id, "processRowUpdate never applies reference modifications")
 	}
+}
+
+// sortedFuncs: the functions of a set in a stable order (by position).
+func sortedFuncs(set map[*ssa.Function]bool) []*ssa.Function {
+	var out []*ssa.Function
+	for f := range set {
+		out = append(out, f)
+	}
+	sort.Slice(out, func(i, j int) bool {
+		if out[i].Pos() != out[j].Pos() {
+			return out[i].Pos() < out[j].Pos()
+		}
+		return out[i].String() < out[j].String()
+	})
+	return out
 }
